@@ -65,6 +65,10 @@ pub enum PieceKind {
     WritelnStr,
     UWrite,
     FmtWrite,
+    /// `core::fmt::Write::write_char` for every character of the text (what `write!(w, "{}", c)` does)
+    FmtChars,
+    /// `ufmt::uwrite!(w, "{}", c)` for every character of the text
+    UChars,
 }
 
 #[derive(Clone, Copy, Debug, PartialEq, Eq, Hash, PartialOrd, Ord)]
@@ -267,9 +271,20 @@ pub fn run_script(w: &mut embedded_cli::writer::Writer<'_, Sink, SinkErr>, scrip
                 ufmt::uwrite!(w, "{}", p.text)?;
             }
             PieceKind::FmtWrite => {
-                use core::fmt::Write as _;
                 if core::fmt::Write::write_str(w, p.text).is_err() {
                     return Err(SinkErr);
+                }
+            }
+            PieceKind::FmtChars => {
+                for c in p.text.chars() {
+                    if core::fmt::Write::write_fmt(w, format_args!("{}", c)).is_err() {
+                        return Err(SinkErr);
+                    }
+                }
+            }
+            PieceKind::UChars => {
+                for c in p.text.chars() {
+                    ufmt::uwrite!(w, "{}", c)?;
                 }
             }
         }
